@@ -150,17 +150,24 @@ def encoder_side(ctx, enc_re, enc_ho, msg, cell, honour_variants):
                 ctx.violate('enc/honour/longer-not-zero-filled/section%d' % sec,
                             'output differs from the zero-filled reference', sp, expected=ref.hex(), observed=out.hex())
         # ---- shorter: refused
-        lengths = dict(natural)
-        lengths[sec] = natural[sec] - k * step
-        if lengths[sec] <= 0:
-            continue
-        try:
-            out = enc_ho.process(json.dumps(with_lengths(fj, msg, lengths, 0))).serialized_bytes
-            ctx.violate('enc/honour/shorter-accepted/section%d' % sec,
-                        'declared length %d < actual %d accepted' % (lengths[sec], natural[sec]), sp, observed=out.hex())
-        except Exception:
-            ctx.count('enc_honour_shorter_refused')
-        ctx.evaluated(('enc-honour-shorter', sec, k) + tuple(cell), True)
+        # (editions <= 3: also ONE octet short of the even extent - such a length can still cover the content bits, it is
+        # shorter than the section's real extent all the same)
+        for short in [k * step] + ([1, 3] if step == 2 else []):
+            lengths = dict(natural)
+            lengths[sec] = natural[sec] - short
+            if lengths[sec] <= 0:
+                continue
+            sp = dict(spec, honour=dict(section=sec, declared=lengths[sec], natural=natural[sec]))
+            try:
+                out = enc_ho.process(json.dumps(with_lengths(fj, msg, lengths, 0))).serialized_bytes
+                ctx.violate('enc/honour/shorter-accepted/section%d%s' % (sec, '/odd' if short % 2 and step == 2 else ''),
+                            'edition %d: declared length %d < actual %d accepted' % (msg.edition, lengths[sec], natural[sec]),
+                            sp, observed=out.hex())
+            except Exception:
+                ctx.count('enc_honour_shorter_refused')
+                if short % 2 and step == 2:
+                    ctx.count('enc_honour_one_short_of_even_refused')
+            ctx.evaluated(('enc-honour-shorter', sec, k, short) + tuple(cell), True)
     # ---- editions <= 3: a section honoured with an ODD declared length (one surplus octet).  The sections after it
     # start on an odd octet offset; each is still padded to an even number of ITS OWN octets
     if msg.edition <= 3:
